@@ -47,6 +47,18 @@ def gen_programs(rng, tier):
         k = 1 if (tier == "quick" or i % 3) else 2
         count = k * cap + rng.choice([-1, 0, 1])
         progs.append([("B", rng.bytes(rng.range(0, 1100))), ("P", proto, gen.rand_points(rng, proto, count))])
+    # (d) sub-byte prototypes with very few points: every byte stream still holds a partial byte at finalize,
+    #     so non-final flushes emit no packet at all and the last packet carries everything
+    for w in range(1, 8):
+        mn, mx = rng.choice(gen.int_ranges_for_width(w, rng))
+        t = "I/%d/%d" % (mn, mx)
+        for count in (1, 2, 3, 5, 7, 8, 9):
+            if w * count > 16 and count not in (8, 9):
+                continue
+            proto = [("x", t), ("y", t), ("z", t)]
+            if rng.chance(1, 2):
+                proto.append(("row", "I/5/5")); proto.append(("col", "I/0/%d" % ((1 << rng.range(1, 3)) - 1)))
+            progs.append([("P", proto, gen.rand_points(rng, proto, count))])
     return progs
 
 
